@@ -17,6 +17,7 @@ func vxH03Respond(k int) {
 	req.status = reqStatus(st)
 	already := st&uint8(reqResponded) != 0
 	flushed := st&uint8(reqFlush) != 0
+	var first []byte // the reply as the first answer produced it
 	for i := 0; i < k; i++ {
 		switch vxChoose("answer", 3) {
 		case 0:
@@ -25,6 +26,9 @@ func vxH03Respond(k int) {
 			req.RespondError(&Error{"e", 7})
 		case 2:
 			req.RespondRclunk()
+		}
+		if i == 0 {
+			first = append([]byte{}, req.Rc.Pkt...)
 		}
 	}
 	rs := kit.replies(conn)
@@ -35,6 +39,8 @@ func vxH03Respond(k int) {
 	vxAssert(len(rs) == want, "replies-queued")
 	if want == 1 && len(rs) == 1 {
 		vxAssert(rs[0] == req, "queued-reply-is-this-request")
+		// the reply now belongs to the sender: further answers by the implementation do not rewrite it
+		vxAssert(refBytesEq(rs[0].Rc.Pkt, first), "queued-reply-is-the-first-answer-unchanged")
 	}
 	_, still := conn.reqs[tc.Tag]
 	if !already {
@@ -140,4 +146,49 @@ func conn0reqs(kit *vxKit, nc *vxNetConn) map[uint16]*SrvReq {
 		return c.reqs
 	}
 	return nil
+}
+
+// H03.burst: more requests outstanding at once than the connection keeps spare reply buffers for (64): all of them
+// are held inside the implementation, then released; every one is answered.
+func vxH03Burst(n int) {
+	kit := vxNewKit(false, false, 8192, true)
+	kit.ops.echo = true
+	nc := vxNewNetConn()
+	kit.srv.NewConn(nc)
+	nc.in <- refEncode(Tversion, NOTAG, []refItem{refU32(8192), refS("9P2000.u")}, true)
+	vxQuiesce()
+	nc.in <- refEncode(Tattach, 1, []refItem{refU32(0), refU32(NOFID), refS("u0"), refS(""), refU32(0)}, true)
+	vxQuiesce()
+	nc.in <- refEncode(Topen, 1, []refItem{refU32(0), refU8(ORDWR)}, true)
+	vxQuiesce()
+	mark := len(nc.wire)
+	kit.ops.gate = map[uint16]chan bool{}
+	var stream []byte
+	for i := 0; i < n; i++ {
+		tag := uint16(100 + i)
+		kit.ops.gate[tag] = make(chan bool, 1)
+		stream = append(stream, refEncode(Tread, tag, []refItem{refU32(0), refU64(uint64(i)), refU32(2)}, true)...)
+	}
+	nc.in <- stream
+	vxQuiesce()
+	fs, ok := vxFrames(nc.wire[mark:])
+	vxAssert(ok && len(fs) == 0, "held-requests-not-answered-yet")
+	for i := 0; i < n; i++ {
+		kit.ops.gate[uint16(100+i)] <- true
+	}
+	vxQuiesce()
+	fs, ok = vxFrames(nc.wire[mark:])
+	vxAssert(ok, "reply-stream-well-formed")
+	vxAssert(len(fs) == n, "every-request-of-the-burst-answered")
+	seen := map[uint16]bool{}
+	for _, f := range fs {
+		vxAssert(f.typ == Rread && f.tag >= 100 && int(f.tag) < 100+n && !seen[f.tag], "one-Rread-per-tag")
+		seen[f.tag] = true
+	}
+	// and the connection goes on
+	nc.in <- refEncode(Tread, 7, []refItem{refU32(0), refU64(0), refU32(2)}, true)
+	vxQuiesce()
+	fs, _ = vxFrames(nc.wire[mark:])
+	vxAssert(len(fs) == n+1, "connection-serves-on-after-the-burst")
+	vxReach("done")
 }
